@@ -57,9 +57,10 @@ func main() {
 	if s, err := strconv.Atoi(os.Getenv("BCL_SHARDS")); err == nil && s > 0 {
 		shards = s
 	}
-	// watchdog: "always terminates" — an op that runs longer than the limit kills the process; with
+	// watchdog: "always terminates" — an op that runs longer than the limit (generous: the
+	// machine may be loaded and a few stress inputs take seconds) kills the process; with
 	// -flush the engine attributes the crash to the op that has no result line.
-	limit := 20 * time.Second
+	limit := 120 * time.Second
 	if s, err := strconv.Atoi(os.Getenv("BCL_OP_TIMEOUT_S")); err == nil && s > 0 {
 		limit = time.Duration(s) * time.Second
 	}
